@@ -10,6 +10,8 @@ def parseObs? (toks : List String) : Option Obs :=
   | ["get", m, w] => do pure (.get (← parseNat? m) (← parseNat? w))
   | ["updok", v] => do pure (.updok (← parseNat? v))
   | ["upderr"] => some .upderr
+  | ["updokbg", v, t] => do pure (.updokbg (← parseNat? v) (← parseNat? t))
+  | ["quiesce"] => some .quiesce
   | ["open", m, uo] => do pure (.open_ (← parseNat? m) (← parseBool? uo))
   | ["recv", i, w, n] => do pure (.recv (← parseNat? i) (← parseNat? w) (← parseBool? n))
   | ["idle", i] => do pure (.idle (← parseNat? i))
